@@ -244,9 +244,20 @@ def rule_work(ctx, M):
     flow.rule_integrity(ctx, fi, "C14.WORK", fb.def_, ("Ready",), "the closure future's result")
 
 
-def break_edges(bi):
+def break_edges(bi, M=None):
     """edges on which a ConsumerState value obtained from the consumer is known to be Break"""
     out = []
+    if M is not None:
+        # `if send_item(..).await { break }` where the local async wrapper returns `matches!(send(..).await, Break)`
+        for sp in costream.send_points(bi, M):
+            if sp.wrapper and sp.wrapper.get("break_when") is True:
+                for a in costream.awaits(bi):
+                    if a.fut is not None and a.fut[0] == "call" and a.fut[3] == sp.block:
+                        for e in bi.switches:
+                            if e["kind"] == "bool" and e["subject"] == a.value:
+                                ed = bi.edge(e, True)
+                                if ed:
+                                    out.append((ed, "wrapper %s returned true (= Break)" % sp.site.callee.name))
     for e in bi.switches:
         if e["kind"] != "discr":
             continue
@@ -265,17 +276,21 @@ def rule_stop(ctx, M):
     ctx.require(ent is not None and ent["drive"] is not None, "FromStream::drive coroutine")
     b = ent["drive"]
     bi = M.info(b)
-    be = break_edges(bi)
+    be = break_edges(bi, M)
     ctx.require(len(be) >= 2, "drive: ConsumerState::Break edges (found %d, expected the progress result and every send result)" % len(be))
     # every awaited send result and the progress result is examined for Break
     untested = []
+    wrapped = {sp.block for sp in costream.send_points(bi, M) if sp.wrapper}
     for a in costream.awaits(bi):
         if a.kind is not None and a.kind[1] == "send" and a.kind[0] in ("Consumer",):
             if not any(flow.derives_from(e["subject"], a.site.block) and bi.edge(e, "Break") for e in bi.switches if e["kind"] == "discr"):
                 untested.append(a.where)
+        elif a.fut is not None and a.fut[0] == "call" and a.fut[3] in wrapped:
+            if not any(e["kind"] == "bool" and e["subject"] == a.value for e in bi.switches):
+                untested.append(a.where)
     ctx.check(not untested, "C14.STOP", b.def_, "every consumer.send(..).await result is examined for Break", site=b.span, path=untested)
     nxt = {blk for blk, _, _ in costream.source_next_points(M, bi)}
-    sends = {s.block for s in costream.send_points(bi)}
+    sends = {s.block for s in costream.send_points(bi, M)}
     fl = [s.block for s in costream.flush_points(bi)]
     for ed, what in be:
         r = bi.reach_from_edges([ed])
